@@ -50,10 +50,10 @@ def main():
         try:
             for p in [prop] + EXTRA.get(s, []):
                 t0 = time.time()
-                r = sh(f'cd {V} && {pre}./bin/vcheck run {p} --tier quick --no-evidence{jobs}')
+                r = sh(f'cd {V} && {pre}./bin/vcheck run {p} --tier quick --no-evidence --no-selftest{jobs}')
                 if r.returncode == 2 and 'ENGINE-MISMATCH' in r.stdout:
                     # a native replay that did not reproduce is inconclusive; try once more
-                    r = sh(f'cd {V} && {pre}./bin/vcheck run {p} --tier quick --no-evidence{jobs}')
+                    r = sh(f'cd {V} && {pre}./bin/vcheck run {p} --tier quick --no-evidence --no-selftest{jobs}')
                 viol = re.findall(r'^VIOLATION property=(\S+) replay=\S+ harness=(\S+) (?:assert|panic)=(.*)$', r.stdout, re.M)
                 inconc = re.findall(r'^INCONCLUSIVE property=\S+ reason=(.*)$', r.stdout, re.M)
                 results.append({'check': f'bin/vcheck run {p} --tier quick', 'exit': r.returncode,
